@@ -30,6 +30,7 @@ type fenvConf struct {
 	mu      sync.Mutex
 	rnFails func() bool   // decides whether the next NewRunNumber fails
 	rnNext  func() uint32 // the number handed out otherwise
+	rnJunk  func() uint32 // what comes back next to the error when the allocation fails (a lost CAS returns the number it tried)
 	rnCalls int
 }
 
@@ -40,6 +41,9 @@ func (c *fenvConf) NewRunNumber() (uint32, error) {
 	defer c.mu.Unlock()
 	c.rnCalls++
 	if c.rnFails != nil && c.rnFails() {
+		if c.rnJunk != nil {
+			return c.rnJunk(), errors.New("cannot advance the run number counter")
+		}
 		return 0, errors.New("cannot advance the run number counter")
 	}
 	if c.rnNext != nil {
